@@ -142,6 +142,7 @@ func registerRESTIntrinsics() {
 			// the body was built for another endpoint: decodes into something unrelated
 			return mkErr("json: body of a different shape")
 		}
+		e.noteWrite(tp.c.obj, "json.Unmarshal")
 		e.storeTrail(tp.c, st.reqValue.v)
 		return &IfaceV{}
 	}
